@@ -234,11 +234,16 @@ class Env:
         return os.path.join(self.base, 'store')
 
     def snapshot(self):
-        finals, leftovers, incomplete = [], 0, []
+        finals, leftovers, incomplete, listing = [], 0, [], []
         root = self.abs_store()
         for d, _, files in os.walk(root):
             for f in files:
                 rel = os.path.relpath(os.path.join(d, f), root)
+                # the raw listing for the model-side classification: name + whose served bytes the file holds
+                with open(os.path.join(d, f), 'rb') as fh:
+                    data = fh.read()
+                tag = next(([ti, r] for ti in range(len(TYPES)) for k, r in enumerate(self.releases[ti]) if data == content(ti, k)), None)
+                listing.append([rel.replace(os.sep, '/'), tag])
                 m = re.match(r'^([A-Z]+)/([a-z]+)\.(.+)\.json$', rel)
                 t = next((i for i, ty in enumerate(TYPES) if m and ty.identifier == m.group(1) and ty.identifier.lower() == m.group(2)), None)
                 if t is not None and m.group(3) in self.releases[t]:
@@ -249,7 +254,7 @@ class Env:
                 else:
                     leftovers += 1
         fetches = [[int(l.split(' ', 1)[0]), l.rstrip('\n').split(' ', 1)[1]] for l in open(self.logfile)]
-        return {'finals': sorted(finals), 'leftovers': leftovers, 'fetches': fetches, 'incomplete': incomplete}
+        return {'finals': sorted(finals), 'leftovers': leftovers, 'fetches': fetches, 'incomplete': incomplete, 'listing': sorted(listing, key=lambda e: e[0])}
 
     def load(self, t, release, plan=None, full=False, gatefn=None):
         """returns 1 (right ontology) | 2 (raised) | 4 (wrong ontology)"""
@@ -297,6 +302,7 @@ def run_history(payload, case, idx):
                     exp = os.path.join(env.store_dir, TYPES[op[1]].identifier, '%s.%s.json' % (TYPES[op[1]].identifier.lower(), r))
                     if p != exp:
                         direct.append(f'resolve_store_path gives {p!r}, expected {exp!r}')
+                    rec['resolved'] = [op[1], r, os.path.relpath(p, env.store_dir).replace(os.sep, '/')]
                 except Exception as e:
                     direct.append(f'resolve_store_path raised {exn_name(e)}')
             snap = env.snapshot()
